@@ -1,8 +1,13 @@
 -- GENERATED: root of the generated-facts library
+import TwigGen.AttrCache
+import TwigGen.CodecLayout
 import TwigGen.DateFmt
 import TwigGen.ErrFlow
+import TwigGen.FilterFacts
 import TwigGen.MapRanges
+import TwigGen.Pools
 import TwigGen.Prec
+import TwigGen.Registry
 import TwigGen.Sandbox
 import TwigGen.Shared
 import TwigGen.Tokens
